@@ -519,7 +519,11 @@ namespace verif
 
         try
         {
-            Address a(text);
+            // two doors for the same text: Address(std::string) and Address(const char*) (the latter when the text has
+            // no NUL; by the text's length, no choice consumed); the result is then moved once, as a caller storing it does
+            const bool cstr = text.find('\0') == std::string::npos && text.size() % 2 == 1;
+            Address parsed  = cstr ? Address(text.c_str()) : Address(text);
+            Address a(std::move(parsed));
             V_CHECK(cls != Reject, "C19/accepts-invalid" + (mut.empty() ? "/" + p.kind : "/" + mut),
                     "Address(\"" + printable(text) + "\") accepted as host=" + a.host() + " port=" + std::to_string(uint16_t(a.port())) + " (" + (mut.empty() ? p.kind : mut) + ")");
             if (cls == Accept)
